@@ -634,7 +634,7 @@ func (it *Interp) visit(fr *frame, instr ssa.Instruction) continuation {
 			if ps, isP := (*p).(poison); isP {
 				panic(unsupported("field of value from unsupported initialiser: " + ps.why))
 			}
-			panic(fmt.Sprintf("FieldAddr: slot holds %T in %s", *p, fr.fn))
+			panic(unsupported(fmt.Sprintf("FieldAddr: slot holds %T in %s (reflection or unsafe struct view)\n%s", *p, fr.fn, it.stackString())))
 		}
 		fr.env[instr] = &st[instr.Field]
 	case *ssa.Field:
